@@ -244,7 +244,11 @@ class ArrayUnionMatcher(CombinationMatcher):
         return self._docnum < self._doccount
 
     def max_quality(self):
-        return max(m.max_quality() for m in self._submatchers)
+        # Scores of the sub-matchers are added together, so the bound is the
+        # sum of their bounds (plus whatever is already in the buffer)
+        rest = sum(m.max_quality() for m in self._submatchers
+                   if m.is_active()) * self._boost
+        return max(max(self._a), rest)
 
     def block_quality(self):
         return max(self._a)
